@@ -186,7 +186,8 @@ def variants(rng, model, clock, with_stop):
     init = ["init", start, warm, end, 0]
 
     def cut():
-        return start + u * rng.randint(0, length // u)
+        # strictly before the end: an exclusive cut AT the end ends the replication without the events at the end (C03)
+        return start + u * rng.randint(0, length // u - 1)
     t1, t2, t3 = sorted([cut(), cut(), cut()])
     base = {"clock": clock, "strategy": "log", "models": [model]}
     out = [
